@@ -66,14 +66,18 @@ def to_model(case, obs):
             key = (min(a, b), max(a, b))
             if nm == "hold":
                 held.add(key)
+                ks.pop(key, None)          # Link::hold re-marks everything in `sent` as held
                 evs.append("Repair %d %d" % key)
             elif nm == "release":
                 held.discard(key)
                 evs.append("Repair %d %d" % key)
                 evs.append("Mature %d %d %s" % (key[0], key[1], coq_list(BIG)))
             elif nm == "partition":
+                ks.pop(key, None)
                 evs.append("Partition %d %d" % key)
             elif nm == "partition_oneway":
+                if ks.get(key):
+                    problems.append("deliver before partition_oneway in one controller phase is not supported")
                 evs.append("PartitionOne %d %d" % (a, b))
             elif nm == "deliver":
                 ks.setdefault(key, []).append(act[3])
@@ -297,6 +301,16 @@ class Script:
         self.step(k)["hosts"].setdefault(str(h), []).append(cmd)
 
 
+CTL_ORDER = {"partition": 0, "partition_oneway": 0, "hold": 1, "release": 1, "deliver": 2}
+
+
+def normalise(case):
+    """Controller actions of one phase in a fixed order: partitions, hold/release, deliveries."""
+    for st in case["steps"]:
+        st["ctl"].sort(key=lambda a: CTL_ORDER[a[0]])
+    return case
+
+
 def gen_handshake(rng, nhosts=None, held=None):
     """Several connectors race for one or two listeners: scripted SYN delivery
     order, accepts, polls, cancels (explicit and by timeout), listener drop and
@@ -405,9 +419,7 @@ def gen_handshake(rng, nhosts=None, held=None):
     for h in range(n):
         sc.cmd(T + 3, h, ["count"])
     sc.step(T + 4)
-    for st in sc.steps:      # stable command order inside a step is the generation order
-        pass
-    return {"cfg": cfg, "steps": sc.steps, "flavour": "handshake-%s" % ("held" if held else "flow")}
+    return normalise({"cfg": cfg, "steps": sc.steps, "flavour": "handshake-%s" % ("held" if held else "flow")})
 
 
 def gen_fifo(rng):
@@ -464,7 +476,7 @@ def gen_fifo(rng):
         sc.cmd(t + 6, srv, ["read", s, 8])
     for h in range(n):
         sc.cmd(t + 7, h, ["count"])
-    return {"cfg": cfg, "steps": sc.steps, "flavour": "fifo"}
+    return normalise({"cfg": cfg, "steps": sc.steps, "flavour": "fifo"})
 
 
 def gen_residue(rng):
@@ -503,7 +515,7 @@ def gen_residue(rng):
         t += 3
     sc.cmd(t, 0, ["count"])
     sc.cmd(t, 1, ["count"])
-    return {"cfg": cfg, "steps": sc.steps, "flavour": "residue"}
+    return normalise({"cfg": cfg, "steps": sc.steps, "flavour": "residue"})
 
 
 def case_signature(case):
